@@ -36,9 +36,10 @@ theorem srFold_eq_agg (ms : List CompiledRule) (hok : C07.SevOk ms) : C07.aggMod
     rw [← this, ho]
 
 /-- a structured rule and a compiled rule that agree on everything a scan looks at -/
-structure RuleRelFull (x : Ext) (sr : S.SRule) (cr : CompiledRule) : Prop extends RuleRel x sr cr where
+structure RuleRelFull (x : Ext) (ev : Event) (sr : S.SRule) (cr : CompiledRule) : Prop extends RuleRel x sr cr where
   rtype : cr.rtype = sr.rtype
-  admits : ∀ src id, canMatchOn cr.includeEvents cr.excludeEvents src id = S.admits sr.matchOn src id
+  /-- admission agrees for the event scanned (for a compiled match-on section this is `C05_admits`) -/
+  admits : canMatchOn cr.includeEvents cr.excludeEvents ev.source ev.id = S.admits sr.matchOn ev.source ev.id
   severity : cr.severity = S.cap sr.severity
   tags : ∀ t, t ∈ cr.tags ↔ t ∈ sr.tags
   attack : ∀ t, t ∈ cr.attack ↔ t ∈ sr.attack.map asciiUpper
@@ -69,7 +70,7 @@ theorem mem_deps_iff {e : Engine} {j : Nat} {q : CompiledRule} (hj : e.rules[j]?
   simp only [depIdx, hj, List.mem_filterMap]
 
 section closure
-variable (x : Ext) (rules : List S.SRule) (e : Engine) (hw : WfEngine e) (hrel : Rel2 (RuleRelFull x) rules e.rules)
+variable (x : Ext) (ev : Event) (rules : List S.SRule) (e : Engine) (hw : WfEngine e) (hrel : Rel2 (RuleRelFull x ev) rules e.rules)
 include hw hrel
 
 theorem closures_prefix : ∀ k, k ≤ rules.length →
@@ -157,7 +158,7 @@ theorem closures_prefix : ∀ k, k ≤ rules.length →
 theorem closures_spec (j : Nat) (q : CompiledRule) (hq : e.rules[j]? = some q) :
     ∃ l, (S.closures rules).lookup q.name = some l ∧
       ∀ n, n ∈ l ↔ ∃ y, y ∈ Dfs.dfsDepSearch (absEng e) j ∧ NameAt e y n := by
-  have h := (closures_prefix x rules e hw hrel rules.length (Nat.le_refl _)).1 j q
+  have h := (closures_prefix x ev rules e hw hrel rules.length (Nat.le_refl _)).1 j q
     (by rw [Rel2.length_eq hrel]; exact (List.getElem?_eq_some_iff.mp hq).1) hq
   rw [List.take_length] at h
   obtain ⟨l, hl, hch⟩ := h
